@@ -267,7 +267,7 @@ StepCMD ==     \* read_command / read_args / read_arg_optional / read_arg_requir
               /\ tp' = j + 1
               /\ stack' = Append(stack, ArgFrame("{", toks[j].p, fr.tol, fr.mode))
               /\ Keep
-         ELSE IF HasNext(j) /\ fr.nreq > 0 /\ TC(j) # "Com" THEN      \* a comment is never taken as the unbraced argument
+         ELSE IF HasNext(j) /\ fr.nreq > 0 /\ TC(j) \notin {"Com", "GE"} THEN      \* a comment / an enclosing closing brace is never taken as the unbraced argument
               LET t == toks[j] IN
               IF t.c = "Esc" THEN
                    /\ tp' = j + 1
